@@ -14,6 +14,8 @@ for d in sorted(glob.glob('/verif/seeded/*')):
         res, first = 'VIOLATION (exit 1)', re.sub(r'^violated:\s*', '', db.get('first_violation', '')).replace('|', '/')[:170]
     elif db.get('exit') is None:
         res, first = 'n/a', db.get('note', '')
+    elif db.get('exit') == 2:
+        res, first = 'alarm, no verdict (exit 2)', (m.get('miss_note') or db.get('note', ''))[:260]
     else:
-        res, first = '**missed** (exit %s)' % db.get('exit'), (m.get('miss_note') or db.get('note', ''))[:200]
+        res, first = '**missed** (exit %s)' % db.get('exit'), (m.get('miss_note') or db.get('note', ''))[:260]
     print('| %s | %s | %s | %s |' % (os.path.basename(d), t, res, first))
